@@ -6,7 +6,7 @@ import (
 
 func init() {
 	Register(&Scenario{Prop: "C01", Name: "same-set-same-state", Run: scenC01, Weight: 1,
-		Rule: "2-4 replicas (1-3 writers, rest observers) of a key-value, event-log or document database with per-replica ReplicationConcurrency in {1,2,32} and ReferenceCount in {1,2,64}; 4-14 (thorough 4-40) writes whose causal shape comes from partial replication between writers; entries reach replicas by announced heads, head exchange on join, manual Sync of (shuffled, duplicated) heads, clean restart or crash + Load(-1), under reorder/dup/drop/cut/heal and shuffled fetch completion; at every quiescent step every pair of replicas with equal entry sets must have equal log order and equal visible state; non-trivial = at least one compared pair held >=3 entries by >=2 authors (or a fork) and was compared at >=2 distinct sets"})
+		Rule: "2-4 replicas (1-3 writers, rest observers) of a key-value, event-log or document database with per-replica ReplicationConcurrency in {1,2,32} and ReferenceCount in {1,2,64}; 4-14 (thorough 4-40) writes whose causal shape comes from partial replication between writers; entries reach replicas by announced heads, head exchange on join, manual Sync of (shuffled, duplicated) heads, clean restart or crash + Load(-1), under reorder/dup/drop/cut/heal, shuffled fetch completion and (1 run in 2) failing block fetches that are retried on a later announcement (1 run in 3: the first remote fetch of about half the entries fails, so ancestors arrive after their descendants); at every quiescent step every pair of replicas with equal entry sets must have equal log order and equal visible state; non-trivial = at least one compared pair held >=3 entries by >=2 authors (or a fork) and was compared at >=2 distinct sets"})
 }
 
 func scenC01(k *K) {
@@ -18,6 +18,14 @@ func scenC01(k *K) {
 	refc := []int{1, 2, 64}[k.C.Intn(3)]
 	c := k.NewCluster(ClusterCfg{N: n, Type: typ, PeerOpts: append(transportOpt(k), WithKnobs(Knobs{Concurrency: conc, RefCount: refc}))})
 	k.F = swarmFaults(k, true)
+	if k.C.Chance(1, 2) {
+		// block fetches fail now and then: ancestors arrive later, in batches of their own,
+		// below the heads a replica already has
+		k.F.FailFetch = k.C.Range(1, 3)
+	}
+	// gap-fill mode: the first remote fetch of some entries fails, so they reach that replica
+	// later than their descendants, in a batch of their own below the heads it already has
+	gapFill := k.C.Chance(1, 3)
 	nops := k.C.Range(4, 14)
 	if Tier == "thorough" {
 		nops = k.C.Range(4, 40)
@@ -53,7 +61,11 @@ func scenC01(k *K) {
 		case 0:
 			node := k.C.Intn(nw)
 			if c.Stores[node] != nil {
-				c.RandomWrite(node)
+				if wr := c.RandomWrite(node); wr != nil && gapFill && k.C.Chance(1, 2) {
+					k.W.mu.Lock()
+					k.W.FailWant[wr.Hash] = k.C.Range(1, 3)
+					k.W.mu.Unlock()
+				}
 			}
 		case 1:
 			src, dst := k.C.Intn(n), k.C.Intn(n)
